@@ -1,8 +1,8 @@
 """Unit eval_node: the expression evaluator (partial_interpret & friends) against the expression semantics (C02, C13)."""
 import re
-from vx.assemble import Fn, Type, Raw, Loop, ClosureRw, FnRw
+from vx.assemble import Fn, Type, Raw, Loop, ClosureRw, FnRw, cmp_rw
 
-PROPERTIES = ['C02']
+PROPERTIES = ['C02', 'C13']
 HEADER = '#![feature(allocator_api)]'
 STDMODEL = ['iter.rs', 'hash.rs', 'btree.rs', 'std.rs']
 EVAL = 'cedar-policy-core/src/evaluator.rs'
@@ -95,9 +95,9 @@ ITEMS = [
            (r'\.map_or_else\(\|_\| right\.as_ref\(\)\.clone\(\), Into::into\)',
             '.map_or_else(|_vx: EvaluationError| -> (r: Expr) ensures r == **right { right.as_ref().clone() }, |pv: PartialValue| -> (r: Expr) ensures r == expr_of_pv(pv) { pv.into() })', 2),
            (r'\.ok_or_else\(\|\| \{(\s*)EvaluationError::entity_tag_does_not_exist\(', r'.ok_or_else(|| -> (e: EvaluationError) ensures e is EntityAttrDoesNotExist {\1EvaluationError::entity_tag_does_not_exist(', 1),
-           (r'Expr::val\(true\)', 'Expr::val_bool(true)', 1), (r'Expr::val\(false\)', 'Expr::val_bool(false)', 1),
-           (r'Expr::val\(tag\.clone\(\)\)', 'Expr::val_str(tag.clone())', 2),
-           (MAP_INTO_PV[0], MAP_INTO_PV[1], 3),
+           (r'Expr::val\(true\)', 'Expr::val_bool(true)', None), (r'Expr::val\(false\)', 'Expr::val_bool(false)', None),
+           (r'Expr::val\(tag\.clone\(\)\)', 'Expr::val_str(tag.clone())', None),
+           (MAP_INTO_PV[0], MAP_INTO_PV[1], None),
            FnRw('replace the advice-decorating closure of `arg1.get_as_entity().map_err(|mut e| {..})` by vx_in_advice (class-preserving, opaque)',
                 lambda t: re.subn(r'\.map_err\(\|mut e\|\s*\{.*?\n\s*e\n\s*\}\)\?', '.map_err(|e: EvaluationError| -> (r: EvaluationError) ensures r.same_class(e) { vx_in_advice(e, &arg2) })?', t, count=1, flags=re.S), 1),
            (r'\.cloned\(\),\n(\s*)\}\n(\s*)\}\n(\s*)BinaryOp::HasTag', r'.vx_cloned(),\n\1}\n\2}\n\3BinaryOp::HasTag', 1),
@@ -113,24 +113,24 @@ ITEMS = [
                         if sem_items(self, *slots, *expr, n) is Vals {
                             let ks = sem_items(self, *slots, *expr, n)->Vals_0; let vs = vals.items();
                             assert(vs.len() == ks.len());
-                            assert forall|j: int| 0 <= j < ks.len() implies vs.map_values(|v: Value| v.value)[j] == ks[j] by { assert(__vx_pvs[j] == PartialValue::Value(vs[j])); }
-                            assert(vs.map_values(|v: Value| v.value) =~= ks);
+                            assert forall|j: int| 0 <= j < ks.len() implies kinds_of(vs)[j] == ks[j] by { assert(__vx_pvs[j] == PartialValue::Value(vs[j])); }
+                            assert(kinds_of(vs) =~= ks);
                         }
                     } Ok(Value::set(vals, loc.cloned()).into()) },''', 1),
            (r'map\.into_iter\(\)\.unzip\(\)', 'vx_unzip(map)', 1),
            (r'names\.into_iter\(\)\.zip\((\w+)\)', r'vx_zip(names, \1)', 2),
            (r'nonempty!\[\s*Type::Record,\s*Type::entity_type\(names::ANY_ENTITY_TYPE\.clone\(\)\)\s*\]', 'nonempty2(Type::Record, Type::entity_type(names::any_entity_type()))', 1),
-           (r'type_of_unknown == entity_type', 'vx_etype_eq(type_of_unknown, entity_type)', 1),
-           (r'v\.get_as_entity\(\)\?\.entity_type\(\) == entity_type', 'vx_etype_eq(v.get_as_entity()?.entity_type(), entity_type)', 1),
+           cmp_rw(r'type_of_unknown', r'entity_type', 'vx_etype'),
+           cmp_rw(r'v\.get_as_entity\(\)\?\.entity_type\(\)', r'entity_type', 'vx_etype'),
            (r'efunc\.call\(&vals\)', 'efunc.call(vals.as_slice())', 1),
        ]),
-    Fn(EVAL, "impl<'e> Evaluator<'e> > fn unknown_to_partialvalue", wrap=W,
+    Fn(EVAL, "impl<'e> Evaluator<'e> > fn unknown_to_partialvalue", wrap=W, props=['C02', 'C13'],
        ensures=[('sem', 'agrees_pv(r, sem_unknown(self, *u))')],
        rewrites=[(r'self\.unknowns_mapper\.as_ref\(\)\(&u\.name\)', 'self.vx_map_unknown(&u.name)', 1),
-                 (r'v\.type_of\(\) == \*t', 'vx_type_eq(v.type_of(), t)', 1)]),
+                 cmp_rw(r'v\.type_of\(\)', r'\*t', 'vx_type', rhs_out='t')]),
     Fn(EVAL, "impl<'e> Evaluator<'e> > fn eval_in", wrap=W, attrs=['verifier::loop_isolation(false)'],
        ensures=[('sem', 'agrees_pv(r, sem_in(*uid1, (match entity1 { Some(e) => Some(*e), None => None }), arg2.value))')],
-       rewrites=[(r'uid1 == uid2', 'vx_uid_eq(uid1, uid2)', 1),
+       rewrites=[cmp_rw(r'uid1', r'uid2', 'vx_uid'),
                  ClosureRw(r'e1', 'e1: &Entity', ret='bool', ensures='r == e1.spec_ancestors().contains(*uid2)'),
                  (r'nonempty!\[Type::Set, Type::entity_type\(names::ANY_ENTITY_TYPE\.clone\(\)\)\]', 'nonempty2(Type::Set, Type::entity_type(names::any_entity_type()))', 1)],
        loops={1: Loop(
@@ -152,15 +152,15 @@ ITEMS = [
            (r'\.unwrap_or_else\(\|_\| consequent\.clone\(\)\)', '.unwrap_or_else(|_vx: EvaluationError| -> (res: Arc<Expr>) ensures res == *consequent { consequent.clone() })', 1),
            (r'\.unwrap_or_else\(\|_\| alternative\.clone\(\)\)', '.unwrap_or_else(|_vx: EvaluationError| -> (res: Arc<Expr>) ensures res == *alternative { alternative.clone() })', 1),
        ]),
-    Fn(EVAL, "impl<'e> Evaluator<'e> > fn get_attr", wrap=W, attrs=NODEC,
+    Fn(EVAL, "impl<'e> Evaluator<'e> > fn get_attr", wrap=W, attrs=NODEC, props=['C02', 'C13'],
        ensures=[('sem', 'agrees_pv(r, match sem(self, *slots, *expr) { Res::Val(k) => sem_get_attr(self, k, *attr), x => x })')],
        rewrites=FIELDS[4:5] + [
            (r'map\.as_ref\(\)\s*\.iter\(\)', 'map.as_ref().iter()', 1),
            ClosureRw(r'\(k, v\)', '_vxp: (&SmolStr, &Expr)', ret='Option<&Expr>', ensures='r == (if *_vxp.0 == *attr { Some(_vxp.1) } else { None })', destructure='(k, v)'),
-           (r'if k == attr \{ Some\(v\) \} else \{ None \}', 'if vx_smolstr_eq(k, attr) { Some(v) } else { None }', 1),
+           
            ClosureRw(r'e', 'e: &Expr', ret='Result<PartialValue>', requires='true', ensures='true'),
            ClosureRw(r'k', 'k: &SmolStr', ret='bool', ensures='r == (*k == *attr)'),
-           (r'\{ k == attr \}', '{ vx_smolstr_eq(k, attr) }', 1),
+           cmp_rw(r'\bk', r'attr\b', 'vx_smolstr'),
            ClosureRw(r'v', 'v: &Value', ret='PartialValue', ensures='r == PartialValue::Value(*v)'),
            ClosureRw(r'pv', 'pv: &PartialValue', ret='Result<PartialValue>', requires='true',
                      ensures='agrees_pv(r, match *pv { PartialValue::Value(v) => Res::Val(v.value), PartialValue::Residual(x) => match x.expr_kind { ExprKind::Unknown(u) => sem_unknown(self, u), _ => Res::Unk } })'),
@@ -168,11 +168,14 @@ ITEMS = [
            (r'\.ok_or_else\(\|\| \{(\s*)EvaluationError::entity_attr_does_not_exist\(', r'.ok_or_else(|| -> (e: EvaluationError) ensures e is EntityAttrDoesNotExist {\1EvaluationError::entity_attr_does_not_exist(', 1),
            (r'nonempty!\[\s*Type::Record,\s*Type::entity_type\(names::ANY_ENTITY_TYPE\.clone\(\)\),\s*\]', 'nonempty2(Type::Record, Type::entity_type(names::any_entity_type()))', 1),
        ]),
-    Fn(EVAL, "impl<'e> Evaluator<'e> > fn short_circuit_residual_and_value", wrap=W),
-    Fn(EVAL, "impl<'e> Evaluator<'e> > fn short_circuit_value_and_residual", wrap=W,
-       rewrites=[(r'uid1\.entity_type\(\) != type_of_unknown', 'vx_etype_ne(uid1.entity_type(), type_of_unknown)', 1)]),
-    Fn(EVAL, "impl<'e> Evaluator<'e> > fn short_circuit_two_typed_residuals", wrap=W,
-       rewrites=[(r't1 != t2', 'vx_etype_ne(t1, t2)', 1)]),
+    Fn(EVAL, "impl<'e> Evaluator<'e> > fn short_circuit_residual_and_value", wrap=W, props=['C13'],
+       ensures=[('sound', 'r is Some ==> op == BinaryOp::Eq && typed_unknown(*e1) is Some && v2.value is Lit && v2.value->Lit_0 is EntityUID && sound_eq_answer(r, |x: EntityUID| x.spec_type() == typed_unknown(*e1)->Some_0, |y: EntityUID| y == *v2.value->Lit_0->EntityUID_0)')]),
+    Fn(EVAL, "impl<'e> Evaluator<'e> > fn short_circuit_value_and_residual", wrap=W, props=['C13'],
+       ensures=[('sound', 'r is Some ==> op == BinaryOp::Eq && typed_unknown(*e2) is Some && v1.value is Lit && v1.value->Lit_0 is EntityUID && sound_eq_answer(r, |x: EntityUID| x == *v1.value->Lit_0->EntityUID_0, |y: EntityUID| y.spec_type() == typed_unknown(*e2)->Some_0)')],
+       rewrites=[cmp_rw(r'uid1\.entity_type\(\)', r'type_of_unknown', 'vx_etype')]),
+    Fn(EVAL, "impl<'e> Evaluator<'e> > fn short_circuit_two_typed_residuals", wrap=W, props=['C13'],
+       ensures=[('sound', 'r is Some ==> op == BinaryOp::Eq && typed_unknown(*e1) is Some && typed_unknown(*e2) is Some && sound_eq_answer(r, |x: EntityUID| x.spec_type() == typed_unknown(*e1)->Some_0, |y: EntityUID| y.spec_type() == typed_unknown(*e2)->Some_0)')],
+       rewrites=[cmp_rw(r'\bt1', r't2\b', 'vx_etype')]),
 ]
 VERUS_ARGS = ['--multiple-errors', '20']
 CANARIES = []
